@@ -593,7 +593,14 @@ func ruleC23(c *Ctx) {
 			}
 		}
 	}
-	okp := len(posters) == 2
+	sortStrings(posters)
+	posters = uniq(posters)
+	okp := len(posters) >= 1
+	for _, n := range posters {
+		if _, ok := c.ownedBy(n, map[string]string{"(*protocol.TxPool).addTransaction": "insert", "(*protocol.TxPool).RemoveTransaction": "removal"}, 3); !ok {
+			okp = false
+		}
+	}
 	c.Require("whocalls", "TxMsgEvent posted only by addTransaction and RemoveTransaction", okp, "posters: %v", posters)
 	li := c.Lockset(pProto)
 	for _, f := range []*ssa.Function{at, rt} {
